@@ -226,11 +226,12 @@ type tcXML struct {
 
 // grpSpXML represents a group of shapes.
 type grpSpXML struct {
-	NvGrpSpPr nvGrpSpPrXML `xml:"nvGrpSpPr"`
-	GrpSpPr   grpSpPrXML   `xml:"grpSpPr"`
-	Sp        []spXML      `xml:"sp"`
-	Pic       []picXML     `xml:"pic"`
-	GrpSp     []grpSpXML   `xml:"grpSp"` // Nested groups
+	NvGrpSpPr    nvGrpSpPrXML      `xml:"nvGrpSpPr"`
+	GrpSpPr      grpSpPrXML        `xml:"grpSpPr"`
+	Sp           []spXML           `xml:"sp"`
+	Pic          []picXML          `xml:"pic"`
+	GraphicFrame []graphicFrameXML `xml:"graphicFrame"` // Tables, charts, etc.
+	GrpSp        []grpSpXML        `xml:"grpSp"`        // Nested groups
 }
 
 type grpSpPrXML struct {
